@@ -1303,6 +1303,7 @@ def case_allometry(c, rng, idx, K):
 
 # ====================================================================================================== IIV / IOV
 KEY_ETA_COLLISION = "C09/add-iiv-eta-name-collides-with-existing-eta"
+KEY_DETECT_AFTER_Y = "C09/error-model-detectors-expand-statements-after-y"
 IIV_STRATA = [("A", 56), ("exp_plus", 7), ("log", 8), ("re_log", 9), ("custom_safe", 10), ("custom_precedence", 10)]
 CUSTOM_IIV_SAFE = ["exp(eta_new)", "eta_new", "(1 + eta_new)", "exp(2*eta_new)", "(eta_new**2 + 1)"]
 CUSTOM_IIV_TOPLEVEL_SUM = ["1 + eta_new", "exp(eta_new) - 1", "eta_new + 1"]
@@ -2067,7 +2068,25 @@ def case_err_basic(c, rng, idx, K):
         else:
             c.hit("err_detector")
         if det != want and not any(v == "<timeout>" for v in det.values()):
-            c.violate(None, f"{c.sample['call']}: the model has the {which} functional form but the detectors report {det}")
+            key = None
+            try:
+                # delta check of KEY_DETECT_AFTER_Y: without the statements that follow the Y statement the detectors agree
+                from pharmpy.model import Assignment
+
+                sts = list(M2.statements)
+                ydv = list(M2.dependent_variables)[0]
+                iy = max(i for i, st_ in enumerate(sts) if isinstance(st_, Assignment) and st_.symbol == ydv)
+                if iy < len(sts) - 1:
+                    M3 = M2.replace(statements=M2.statements[: iy + 1])
+                    det3 = {nm: bool(h(M3)) for nm, h in (("additive", pm.has_additive_error_model),
+                                                          ("proportional", pm.has_proportional_error_model),
+                                                          ("combined", pm.has_combined_error_model))}
+                    c.hit("delta_check")
+                    if det3 == want:
+                        key = KEY_DETECT_AFTER_Y
+            except Exception:
+                key = None
+            c.violate(key, f"{c.sample['call']}: the model has the {which} functional form but the detectors report {det}")
     else:
         c.hit("not_judged:detectors-on-log-transformed-error-model")
     # ---- numeric classification agrees
